@@ -181,7 +181,18 @@ type gzResult struct {
 	Bound    uint64 `json:"bound"`
 	Calib    uint64 `json:"calib"` // allocation cost of io.ReadAll over 10 MiB in this process
 	EncErr   string `json:"enc_err,omitempty"`
+	// HistoryChanged: earlier decoded Data (kept alive in this process) whose
+	// content differs from its digest at decode time, found after this decode.
+	HistoryChanged []string `json:"history_changed,omitempty"`
 }
+
+type gzKept struct {
+	name string
+	data []byte
+	sum  uint64
+}
+
+var gzHistory []gzKept
 
 type zeroReader struct{}
 
@@ -327,6 +338,21 @@ func runGz(s gzSpec) gzResult {
 	var err error
 	res.Alloc, _ = mon.MeasureAlloc(func() { err = g.Decode(b) })
 	res.Err, res.OutLen, res.Consumed = errStr(err), len(g.Data), len(wire)-b.Len()
+	keptNow := gzHistory[:0]
+	for _, k := range gzHistory {
+		if hashBytes(k.data) != k.sum {
+			res.HistoryChanged = append(res.HistoryChanged, k.name)
+			continue
+		}
+		keptNow = append(keptNow, k)
+	}
+	gzHistory = keptNow
+	if err == nil && len(g.Data) > 0 && len(g.Data) <= 1<<20 {
+		gzHistory = append(gzHistory, gzKept{name: s.Name, data: g.Data, sum: hashBytes(g.Data)})
+		if len(gzHistory) > histKeep {
+			gzHistory = gzHistory[len(gzHistory)-histKeep:]
+		}
+	}
 	var bomb *proto.DecompressionBombErr
 	res.Bomb = errors.As(err, &bomb)
 	if err != nil {
